@@ -69,7 +69,7 @@ func switchCases(fn *ssa.Function, paramIdx int) []string {
 				}
 			}
 			if c, ok := in.(*ssa.Call); ok {
-				if cal := c.Call.StaticCallee(); cal != nil && cal.Pkg == f.Pkg {
+				if cal := c.Call.StaticCallee(); cal != nil && ssaPkgOf(cal) == ssaPkgOf(f) {
 					for j, arg := range c.Call.Args {
 						if arg == ssa.Value(p) {
 							rec(cal, j, d+1)
@@ -230,14 +230,7 @@ func runC12(a *A) {
 				return
 			}
 			n++
-			ok2 := guardedByValue(ta.Block(), func(v ssa.Value) bool {
-				bo, ok := v.(*ssa.BinOp)
-				if !ok || bo.Op != token.NEQ {
-					return false
-				}
-				k, isNil := bo.Y.(*ssa.Const)
-				return isNil && k.Value == nil && types.Identical(bo.X.Type(), types.Universe.Lookup("error").Type())
-			}, false)
+			ok2 := guardedNil(ta.Block(), func(v ssa.Value) bool { return isErrorType(v.Type()) }, true)
 			a.Check(ok2, fname(fn)+"#assert-after-err-check", in.Pos(), "result.(bool) is reached only when err == nil", "result.(bool) can be reached with err != nil (nil result): a failing predicate panics instead of rejecting the row")
 		})
 		if n == 0 {
@@ -245,10 +238,8 @@ func runC12(a *A) {
 		}
 		// error arm returns false
 		env := &Env{a: a, Rank: map[string]int{}, Flags: map[string]bool{}, Assume: func(t *Term, v ssa.Value) Tri {
-			if bo, ok := v.(*ssa.BinOp); ok && bo.Op == token.NEQ {
-				if k, isNil := bo.Y.(*ssa.Const); isNil && k.Value == nil && types.Identical(bo.X.Type(), types.Universe.Lookup("error").Type()) {
-					return T
-				}
+			if x, nilWhenTrue, ok := nilTest(v); ok && isErrorType(x.Type()) {
+				return tri(!nilWhenTrue) // the error is not nil
 			}
 			if bo, ok := v.(*ssa.BinOp); ok && (bo.Op == token.NEQ || bo.Op == token.EQL) {
 				if t := TermOf(bo.X, nil); isFieldOf(t, "condition.ExprCondition", "fast") || isFieldOf(t, "condition.ExprCondition", "compound") {
@@ -364,7 +355,8 @@ func (a *A) ruleFastFallback() {
 				}
 				if bo, ok := v.(*ssa.BinOp); ok && bo.Op == token.EQL {
 					if k, ok := bo.Y.(*ssa.Const); ok && k.Value == nil {
-						return tri(cs == "null")
+						// a NULL field is nil; so is what a plain (not comma-ok) lookup of a missing key yields
+						return T
 					}
 				}
 				return U
